@@ -354,6 +354,128 @@ func c01ConcRun(c c01Conc) error {
 	return nil
 }
 
+// ---------------------------------------------------------------------------
+// generator-level sweep (thorough tier): all 2^32 first words through a real
+// call site - a one-word generation from a list given with duplicates and
+// capitalised twins - so that "every generator draws through the swept
+// primitive" is checked rather than assumed.
+
+func genSweepShared(t *testing.T) {
+	work := os.Getenv("VERIF_WORK")
+	N := ev.Cfg.NShards
+	if work == "" {
+		return
+	}
+	input := []string{"kiwi", "fig", "plum", "Plum", "pear", "kiwi", "lime", "Lime", "date", "fig", "fig", "yuzu", "pear", "plum", "kiwi", "date", "Date"}
+	wl, err := spg.NewWordList(input)
+	if err != nil {
+		ev.Inconclusive(err.Error())
+		return
+	}
+	kept := []string{"date", "fig", "kiwi", "lime", "pear", "plum", "yuzu"} // reference normalisation, sorted
+	idx := map[string]int{}
+	for i, w := range kept {
+		idx[w] = i
+	}
+	n := uint32(len(kept))
+	r := spg.NewWLRecipe(1, wl)
+	path := filepath.Join(work, "gensweep.bin")
+	f, err := os.OpenFile(path, os.O_RDWR|os.O_CREATE, 0o644)
+	if err != nil {
+		ev.Inconclusive(err.Error())
+		return
+	}
+	defer f.Close()
+	size := 64 + 8*int(n)
+	f.Truncate(int64(size))
+	mem, err := syscall.Mmap(int(f.Fd()), 0, size, syscall.PROT_READ|syscall.PROT_WRITE, syscall.MAP_SHARED)
+	if err != nil {
+		ev.Inconclusive(err.Error())
+		return
+	}
+	defer syscall.Munmap(mem)
+	hdr := (*[8]uint64)(unsafe.Pointer(&mem[0]))
+	shared := unsafe.Slice((*uint64)(unsafe.Pointer(&mem[64])), n)
+	c, _, cerr := findCont(n)
+	if cerr != nil {
+		ev.Inconclusive(cerr.Error())
+		return
+	}
+	rd := &sweepReader{cont: c}
+	old := rand.Reader
+	oldO := spg.VerifDrawObserver
+	rand.Reader = rd
+	spg.VerifDrawObserver = nil
+	lo := (uint64(1) << 32) * uint64(ev.Cfg.Shard) / uint64(N)
+	hi := (uint64(1) << 32) * uint64(ev.Cfg.Shard+1) / uint64(N)
+	hist := make([]uint64, n)
+	var rejected uint64
+	var fail string
+	func() {
+		defer func() {
+			rand.Reader = old
+			spg.VerifDrawObserver = oldO
+			if rec := recover(); rec != nil {
+				fail = fmt.Sprintf("panic at word %#x: %v", rd.w, rec)
+			}
+		}()
+		contWord := ""
+		for v := lo; v < hi && fail == ""; v++ {
+			rd.w, rd.k = uint32(v), 0
+			p, err := r.Generate()
+			if err != nil {
+				fail = fmt.Sprintf("word %#x: %v", uint32(v), err)
+				break
+			}
+			s := p.String()
+			i, ok := idx[s]
+			if !ok {
+				fail = fmt.Sprintf("word %#x selects %q, not a word of the normalised list", uint32(v), s)
+				break
+			}
+			if rd.k == 1 {
+				hist[i]++
+			} else {
+				rejected++
+				if contWord == "" {
+					contWord = s
+				}
+				if rd.k != 2 || s != contWord {
+					fail = fmt.Sprintf("first word %#x was redrawn; the continuation word gave %q after %d reads, earlier %q", uint32(v), s, rd.k, contWord)
+				}
+			}
+		}
+	}()
+	ev.Leaves(int64(hi - lo))
+	ev.Eval(1)
+	if fail != "" {
+		atomic.AddUint64(&hdr[3], 1)
+		ev.AddViolation("c01_generator_sweep", c01Sweep{n}, "one-word generation from a 17-entry list (7 words): "+fail)
+		t.Errorf("%s", fail)
+	} else {
+		var acc uint64
+		for i, h := range hist {
+			atomic.AddUint64(&shared[i], h)
+			acc += h
+		}
+		atomic.AddUint64(&hdr[1], acc)
+		atomic.AddUint64(&hdr[2], rejected)
+	}
+	if done := atomic.AddUint64(&hdr[0], 1); done == uint64(N) && atomic.LoadUint64(&hdr[3]) == 0 {
+		err := checkCounts(n, hdr[1], hdr[2], func(i uint32) uint64 { return shared[i] })
+		if err != nil {
+			msg := "one-word generation from a 17-entry list (7 distinct words after normalisation), all 2^32 first words: " + err.Error()
+			ev.AddViolation("c01_generator_sweep", c01Sweep{n}, msg)
+			t.Errorf("%s", msg)
+		} else {
+			ev.Class("generator_level_sweep")
+			ev.NonTrivial("gensweep:wl7of17")
+			ev.Sample("c01_generator_sweep", 2, map[string]interface{}{"words": kept, "input_entries": len(input), "accepted": hdr[1], "rejected": hdr[2], "per_word": hdr[1] / uint64(n)})
+		}
+		os.Remove(path)
+	}
+}
+
 var smallBounds = []uint32{3, 5, 6, 7, 10, 12, 26, 36, 52, 55, 62, 68, 94, 1000, 10129, 18325, 65535, 65537}
 
 func c01Bounds() (shared []uint32, solo []uint32) {
@@ -599,6 +721,9 @@ func TestC01(t *testing.T) {
 			ev.Sample("c01_sweep", 64, map[string]interface{}{"bound": c.N, "mode": "single process"})
 			return nil
 		})
+	}
+	if ev.Thorough() {
+		genSweepShared(t)
 	}
 	ev.Note("sweep_wall_s", fmt.Sprintf("%.1f", time.Since(start).Seconds()))
 	ev.Note("swept_bounds", fmt.Sprint(shared, solo))
